@@ -134,6 +134,8 @@ def main():
     last_bool = {}
 
     def fb_kind(j):
+        if j % 7 == 5:
+            return "float_int"     # -> float, returning a whole number as a python int (PEP 484: an int is acceptable where a float is expected)
         if j % 7 == 3:
             return "bool"          # -> bool: a boolean topic (one bit of the scripted value gets through; read_nt checks that bit)
         if j % 6 == 0 and j > 0:
@@ -195,6 +197,12 @@ def main():
                 v = fbval.get(k, 0)
                 last_bool[(owner0 if owner0 < 0 else ix(self, owner0), j)] = v
                 return v % 2 == 1
+        elif kind == "float_int":
+            def getter(self) -> float:
+                k = begin_fb(self)
+                if k in raises:
+                    raise fault(k)
+                return fbval.get(k, 0)
         elif kind == "int_quoted":
             def getter(self) -> "int":
                 k = begin_fb(self)
@@ -298,18 +306,33 @@ def main():
                 return setup
             ns["setup"] = mk_setup(i)
         plain_hooks = not spec.get("static_hooks") or any(c2.get("same_as") == i for c2 in case["comps"])
+
+        class CallSite:
+            """int(CallSite(site)) logs the callback; a scripted fault is raised by int() itself (TypeError: __int__ returned
+            non-int), i.e. from C code: the traceback the framework sees has no frame below its own -- what a callback with the
+            wrong signature, or a builtin used as a hook, produces"""
+
+            def __init__(self, site):
+                self.site = site
+
+            def __int__(self):
+                k = begin(["cb"] + self.site)
+                return "fault" if k in raises else 0
         if spec["has_enable"]:
             if plain_hooks:
                 (basens if spec["inherit"] else ns)["on_enable"] = (lambda i: lambda self: cb(["OnEnable", ix(self, i)]))(i)
             else:
                 # a hook need not be a bound method: a staticmethod is just as callable
-                ns["on_enable"] = staticmethod((lambda i: lambda: cb(["OnEnable", i]))(i))
+                import functools
+                ns["on_enable"] = (staticmethod((lambda i: lambda: cb(["OnEnable", i]))(i)) if i % 2 else
+                                   functools.partial(int, CallSite(["OnEnable", i])))
         if spec["has_disable"]:
             if plain_hooks:
                 ns["on_disable"] = (lambda i: lambda self: cb(["OnDisable", ix(self, i)]))(i)
             else:
                 import functools
-                ns["on_disable"] = functools.partial((lambda i: lambda tag: cb(["OnDisable", i]))(i), "partial")
+                ns["on_disable"] = (functools.partial((lambda i: lambda tag: cb(["OnDisable", i]))(i), "partial") if i % 2 == 0 else
+                                    functools.partial(int, CallSite(["OnDisable", i])))
         for j, o in enumerate(owners):
             if o == i and fb_fn[j] == j:      # (a getter inherited from another component's class has fb_fn[j] != j)
                 # every other getter of an inheriting component is defined in its base class
@@ -350,6 +373,9 @@ def main():
                     # a boolean topic holding the bit the getter returned last (the scripted value it was derived from is reported)
                     lb = last_bool.get((o, fb_fn[j]))
                     x = lb if (val.isBoolean() and lb is not None and x is (lb % 2 == 1)) else -999994
+                elif kind == "float_int":
+                    # a double topic holding the whole number the getter returned
+                    x = int(x) if (val.isDouble() and not isinstance(x, bool) and float(x).is_integer()) else -999993
                 elif kind == "opt_int":
                     # Optional[int] names no topic type: the value decides (ntcore stores a python int given without a type as a number)
                     x = int(x) if ((val.isInteger() or val.isDouble()) and not isinstance(x, bool) and float(x).is_integer()) else -999995
